@@ -96,5 +96,5 @@ def run(ctx):
     ctx.assume("POSIX rename atomicity; durability after power loss is not exercised (only process death)",
                "process death is injected with strace fault injection on syscalls touching the temp or destination path; kill points beyond the number of such syscalls do not kill and the pull completes",
                "a killed process may leave its temp file behind (no guard runs); an in-process failure must not")
-    if killed == 0:
+    if killed == 0 and not ctx.violations:
         raise vlib.ToolError("no strace kill point killed the child: the crash part of the check did not run")
